@@ -22,6 +22,19 @@ def handle (op : String) (j : Json) : Option (R Json) :=
       let img ← realArrOfJson j
       let kind ← getStr j "kind"
       let ps ← getFloat j "pixelscale"; let os ← getFloat j "oversample"
+      -- a call that omits pixelscale / oversample: the model fills in the defaults regenerated from the signatures
+      let dflt := match optVal j "defaults" with | some (Json.bool true) => true | _ => false
+      if dflt then
+        match kind with
+        | "pixel" => pure (okJ [("out", realArrToJson (Lentil.pixelDefault CF img))])
+        | "jitter" =>
+            let s ← getFloat j "extent"
+            pure (okJ [("out", realArrToJson (Lentil.jitterDefault CF img s))])
+        | "smear" =>
+            let s ← getFloat j "extent"; let a ← getFloat j "angle"
+            pure (okJ [("out", realArrToJson (Lentil.smearDefault CF img s a))])
+        | _ => throw "bad kind for a default-arguments call"
+      else
       match kind with
       | "pixel" => pure (okJ [("out", realArrToJson (Lentil.pixel CF img os))])
       | "jitter" =>
